@@ -89,6 +89,11 @@ class HSM2Protocol:
     # Minimum number of blocks to update the ancestor block
     MINIMUM_UPDATE_ANCESTOR_BLOCKS = 1
 
+    # Maximum witness script size: it travels, preceded by its length (up to 3 bytes)
+    # and followed by the outpoint value (8 bytes), in an "extradata" field whose
+    # length is encoded in two bytes
+    MAX_WITNESS_SCRIPT_SIZE = 0xffff - 3 - 8
+
     # Signer and UI heartbeat user-defined value sizes
     SIGNER_HBT_UD_VALUE_SIZE = 16  # bytes
     UI_HBT_UD_VALUE_SIZE = 32  # bytes
@@ -348,6 +353,8 @@ class HSM2Protocol:
             and len(message) == 3
             and has_nonempty_hex_field(message, "tx")
             and has_field_of_type(message, "input", int)
+            and message["input"] >= 0
+            and message["input"] <= 0xffffffff
             and has_field_of_type(message, "sighashComputationMode", str)
             and message["sighashComputationMode"] == "legacy"
         ):
@@ -359,9 +366,12 @@ class HSM2Protocol:
             and len(message) == 5
             and has_nonempty_hex_field(message, "tx")
             and has_field_of_type(message, "input", int)
+            and message["input"] >= 0
+            and message["input"] <= 0xffffffff
             and has_field_of_type(message, "sighashComputationMode", str)
             and message["sighashComputationMode"] == "segwit"
             and has_nonempty_hex_field(message, "witnessScript")
+            and len(message["witnessScript"]) <= 2 * self.MAX_WITNESS_SCRIPT_SIZE
             and has_field_of_type(message, "outpointValue", int)
             and message["outpointValue"] > 0
             and message["outpointValue"] <= 0xffffffffffffffff
